@@ -79,7 +79,7 @@ func (c *Ctx) userCallSitesDepth(fn *ssa.Function, depth int) []userCallSite {
 				// a helper of the printer that makes the call: the site is the
 				// call of the helper, the arguments are the inner call's, read
 				// through the helper's parameters
-				if depth < 2 && g.Blocks != nil && c.P.InModule(g) && recvNamed(g) == tPP && (g.Object() == nil || !g.Object().Exported()) && g != fn && !back(g, map[*ssa.Function]bool{}) {
+				if depth < 2 && g.Blocks != nil && c.P.InModule(g) && recvNamed(g) == tPP && (g.Object() == nil || !g.Object().Exported()) && g != fn && (handWritten(c, g) || !back(g, map[*ssa.Function]bool{})) {
 					for _, in := range c.userCallSitesDepth(g, depth+1) {
 						m := map[ssa.Value]ssa.Value{}
 						for i, p := range g.Params {
@@ -151,6 +151,66 @@ func handledBefore(g *ssa.Function, at ssa.Instruction) bool {
 		}
 	}
 	return ok
+}
+
+// recoversItself: g defers a function that calls recover (its own recovery).
+func recoversItself(g *ssa.Function) bool {
+	for _, b := range g.Blocks {
+		for _, ins := range b.Instrs {
+			d, ok := ins.(*ssa.Defer)
+			if !ok {
+				continue
+			}
+			f := d.Common().StaticCallee()
+			if f == nil {
+				continue
+			}
+			for _, fb := range f.Blocks {
+				for _, fi := range fb.Instrs {
+					if call, ok := fi.(*ssa.Call); ok {
+						if bi, ok := call.Common().Value.(*ssa.Builtin); ok && bi.Name() == "recover" {
+							return true
+						}
+					}
+				}
+			}
+		}
+	}
+	return false
+}
+
+// reportsHandledAfter: right after the call, in its block, the boolean
+// result of the enclosing function is set to true (or true is returned).
+func reportsHandledAfter(ci ssa.CallInstruction) bool {
+	seen := false
+	for _, ins := range ci.Block().Instrs {
+		if ins == ssa.Instruction(ci) {
+			seen = true
+			continue
+		}
+		if !seen {
+			continue
+		}
+		switch x := ins.(type) {
+		case *ssa.Store:
+			if _, isAlloc := x.Addr.(*ssa.Alloc); isAlloc {
+				if cst, ok := x.Val.(*ssa.Const); ok && cst.Value != nil && cst.Value.String() == "true" {
+					return true
+				}
+			}
+		case *ssa.Return:
+			if len(x.Results) == 1 {
+				if cst, ok := x.Results[0].(*ssa.Const); ok && cst.Value != nil && cst.Value.String() == "true" {
+					return true
+				}
+			}
+		case ssa.CallInstruction:
+			if _, isRD := ins.(*ssa.RunDefers); !isRD {
+				return false
+			}
+		}
+	}
+	return false
 }
 
 // resultBranch: the If that branches on the value of a call (the helper
@@ -575,6 +635,11 @@ func ruleC11g(c *Ctx) []*report.Result {
 			// made by a helper with its own recovery: the helper's result is
 			// true when the call is entered, and the dispatcher branches on it
 			okH := handledBefore(s.inner.Parent(), s.inner) && resultBranch(s.call) != nil
+			if !okH && recoversItself(s.inner.Parent()) && reportsHandledAfter(s.call) {
+				// the helper contains the panic itself and returns normally;
+				// the dispatcher then reports the operand as handled
+				okH = true
+			}
 			r.Check(okH, "(*internal/rfmt.pp).handleMethods / handled set before "+s.what, c.P.Pos(s.inner.Pos()), "the helper that calls "+s.what+" does not report the operand as handled on its recovery path (or the dispatcher ignores its result)")
 			continue
 		}
@@ -647,30 +712,74 @@ func ruleC08c(c *Ctx) []*report.Result {
 		r.Fail("redact.JoinTo", "util.go", "not found", nil, "")
 	} else {
 		n := 0
-		for _, b := range jt.Blocks {
-			for _, ins := range b.Instrs {
-				ci, ok := ins.(ssa.CallInstruction)
-				if !ok || !ci.Common().IsInvoke() {
-					continue
+		// JoinTo and the helpers of its package to which it hands the writer
+		type wfn struct {
+			fn *ssa.Function
+			w  ssa.Value
+			d  ssa.Value
+		}
+		work := []wfn{{jt, jt.Params[0], jt.Params[1]}}
+		seenFn := map[*ssa.Function]bool{jt: true}
+		var delims []ssa.Value
+		for len(work) > 0 {
+			cur := work[0]
+			work = work[1:]
+			if cur.d != nil {
+				delims = append(delims, cur.d)
+			}
+			for _, b := range cur.fn.Blocks {
+				for _, ins := range b.Instrs {
+					ci, ok := ins.(ssa.CallInstruction)
+					if !ok {
+						continue
+					}
+					if g := ci.Common().StaticCallee(); g != nil && g.Pkg == jt.Pkg && g.Blocks != nil && !seenFn[g] {
+						var wp, dp ssa.Value
+						for i, a := range ci.Common().Args {
+							if i >= len(g.Params) {
+								break
+							}
+							if a == cur.w {
+								wp = g.Params[i]
+							}
+							if cur.d != nil && a == cur.d {
+								dp = g.Params[i]
+							}
+						}
+						if wp != nil {
+							seenFn[g] = true
+							work = append(work, wfn{g, wp, dp})
+						}
+						continue
+					}
+					if !ci.Common().IsInvoke() || ci.Common().Value != cur.w {
+						continue
+					}
+					n++
+					r.Check(ci.Common().Method.Name() == "Print", "redact.JoinTo / writes through Print", c.P.Pos(ci.Pos()), "JoinTo calls "+ci.Common().Method.Name()+" on the writer: delimiter and elements must go through Print so that redactables are inlined unchanged")
 				}
-				if ci.Common().Value != ssa.Value(jt.Params[0]) {
-					continue
-				}
-				n++
-				r.Check(ci.Common().Method.Name() == "Print", "redact.JoinTo / writes through Print", c.P.Pos(ci.Pos()), "JoinTo calls "+ci.Common().Method.Name()+" on the writer: delimiter and elements must go through Print so that redactables are inlined unchanged")
 			}
 		}
 		r.Check(n >= 3, "redact.JoinTo / three Print sites", c.P.Pos(jt.Pos()), fmt.Sprintf("found %d writer calls in JoinTo, want the non-slice operand, the delimiter and the element", n))
 		// the delimiter parameter flows only into Print
-		delim := jt.Params[1]
 		okDelim := true
-		for _, ref := range *delim.Referrers() {
-			switch x := ref.(type) {
-			case *ssa.MakeInterface:
-				_ = x
-			case *ssa.DebugRef:
-			default:
-				okDelim = false
+		for _, delim := range delims {
+			if delim.Referrers() == nil {
+				continue
+			}
+			for _, ref := range *delim.Referrers() {
+				switch x := ref.(type) {
+				case *ssa.MakeInterface:
+					_ = x
+				case *ssa.DebugRef:
+				case ssa.CallInstruction:
+					// handed on to a helper of the package (followed above)
+					if g := x.Common().StaticCallee(); g == nil || !seenFn[g] {
+						okDelim = false
+					}
+				default:
+					okDelim = false
+				}
 			}
 		}
 		r.Check(okDelim, "redact.JoinTo / delimiter passed as is", c.P.Pos(jt.Pos()), "the delimiter must be passed to Print unchanged (no conversion: its static type is what makes it pre-redactable)")
